@@ -124,7 +124,7 @@ def decide(pid, tier, seed, keep=False, only_obligation=None):
             names = [h["full"] for _, h in hs]
             htime = max(h.get("timeout", 300) for _, h in hs)
             jobs = int(os.environ.get("FV_JOBS", "12"))
-            run = kani.run_harnesses(crate_info["crate"], names, jobs=jobs, harness_timeout=htime,
+            run = kani.run_harnesses(crate_info["crate"], names, jobs=jobs, harness_timeout=htime, heavy=[h["full"] for _, h in hs if h.get("mem") == "high"],
                                      total_timeout=P.get("total_timeout", 5400) if tier == "quick" else 12 * 3600)
             backends["kani"]["wall_s"] += run["wall_s"]
             backends["kani"]["cmd"] = run["cmd"]
@@ -443,7 +443,7 @@ def main(argv):
                 log("thorough-only harnesses: %d" % len(hs))
                 if not hs:
                     return 0
-            run = kani.run_harnesses(info["crate"], [h["full"] for h in hs], jobs=int(os.environ.get("FV_JOBS", "12")),
+            run = kani.run_harnesses(info["crate"], [h["full"] for h in hs], jobs=int(os.environ.get("FV_JOBS", "12")), heavy=[h["full"] for h in hs if h.get("mem") == "high"],
                                      harness_timeout=a.timeout or max(h.get("timeout", 300) for h in hs), total_timeout=8 * 3600)
             if run["json"] is None:
                 log(run["out"][-6000:])
@@ -458,6 +458,7 @@ def main(argv):
                     log("      inconclusive: %s" % f)
             if run["killed"]:
                 log("watchdog killed:", run["killed"])
+            log("peak cbmc RSS %d MB, peak kani-driver RSS %d MB, %d batch(es)" % (run["peak_rss_kb"] // 1024, run.get("peak_driver_kb", 0) // 1024, run.get("batches", 1)))
         finally:
             if a.keep:
                 log("scratch kept at", wd)
